@@ -12,6 +12,8 @@ usage (cwd anywhere; run with any python >= 3.8, the checks themselves use /venv
   tools/mutation_sweep.py run    [--envs ...] [--cap 25] [--workers 4] [--minutes 150] [--fresh]
                                                                              run the sweep (resumes audit/mutation_sweep.json)
   tools/mutation_sweep.py followup [--minutes 20]                           survivors in mask/step/reset code additionally vs C03
+  tools/mutation_sweep.py list2 / run2 [--modules decoding,ops] [--cap 20] [--workers 4] [--minutes 150] / report2
+                                                                             second sweep: non-env modules (table MODULES) vs C10-C20
   tools/mutation_sweep.py report                                             regenerate audit/MUTATION_SWEEP.md from the json
   tools/mutation_sweep.py show  <mutant-id>                                  print the stored diff
   tools/mutation_sweep.py apply <mutant-id> <tree>                           apply one mutant to a scratch tree (for triage)
@@ -30,6 +32,7 @@ operators
   max_min        max <-> min, maximum <-> minimum, amax <-> amin, argmax <-> argmin
   col01          [..., 0] <-> [..., 1]
   drop_clone     x.clone() -> x
+  (second sweep only)  drop_detach  x.detach() -> x;  drop_neg  -x -> x;  mean_sum  .mean <-> .sum;  axis  dim=0 <-> dim=1, dim=-1 <-> dim=-2
 """
 from __future__ import annotations
 
@@ -99,7 +102,7 @@ EXCLUDE = {"__init__", "_make_spec", "render", "load_data", "local_search", "sel
 CHECKS_BY_CAT = {"dyn": ["C01", "C02", "C04", "C05"], "reward": ["C03", "C04"], "checker": ["C06"]}
 
 OP_PRIORITY = ["cmp_boundary", "drop_conjunct", "and_or", "drop_not", "plus_minus", "drop_disjunct", "const+1", "const-1",
-               "any_all", "max_min", "col01", "drop_clone"]
+               "any_all", "max_min", "col01", "drop_clone", "drop_detach", "drop_neg", "mean_sum", "axis"]
 
 
 # ---------------------------------------------------------------------------------------------- enumeration
@@ -156,8 +159,9 @@ def flatten(node, optype):
 
 
 class Enumerator(ast.NodeVisitor):
-    def __init__(self, src: Src, func: str):
+    def __init__(self, src: Src, func: str, extra_ops: bool = False):
         self.src, self.func = src, func
+        self.extra_ops = extra_ops      # module sweep only: drop_detach, mean_sum, drop_neg, axis
         self.edits = []          # (line, col, operator, start, end, replacement bytes)
         self.parents = []
         self.col01_consts = set()
@@ -253,6 +257,10 @@ class Enumerator(ast.NodeVisitor):
             s, _ = self.src.span(node)
             if self.src.b[s:s + 1] == b"~":
                 self.add(node, "drop_not", s, s + 1, b"")
+        if self.extra_ops and isinstance(node.op, ast.USub) and not isinstance(node.operand, ast.Constant):
+            s, _ = self.src.span(node)
+            if self.src.b[s:s + 1] == b"-":
+                self.add(node, "drop_neg", s, s + 1, b"")
         self.generic_visit(node)
 
     SWAP = {"any": "all", "all": "any", "max": "min", "min": "max", "maximum": "minimum", "minimum": "maximum",
@@ -269,10 +277,30 @@ class Enumerator(ast.NodeVisitor):
                 s = e - len(f.attr)
                 if self.src.b[s:e] == f.attr.encode():
                     self.add(node, self.SWAP_OP.get(f.attr, "max_min"), s, e, self.SWAP[f.attr].encode())
+            if self.extra_ops and f.attr == "detach" and not node.args and not node.keywords:
+                _, vs = self.src.span(f.value)
+                _, ce = self.src.span(node)
+                self.add(node, "drop_detach", vs, ce, b"")
+            if self.extra_ops and f.attr in ("mean", "sum"):
+                _, e = self.src.span(f)
+                st = e - len(f.attr)
+                if self.src.b[st:e] == f.attr.encode():
+                    self.add(node, "mean_sum", st, e, b"sum" if f.attr == "mean" else b"mean")
             if f.attr == "clone" and not node.args and not node.keywords:
                 _, vs = self.src.span(f.value)
                 _, ce = self.src.span(node)
                 self.add(node, "drop_clone", vs, ce, b"")
+        if self.extra_ops:
+            for kw in node.keywords:
+                if kw.arg in ("dim", "axis", "on_dim", "dims"):
+                    v = kw.value
+                    neg = isinstance(v, ast.UnaryOp) and isinstance(v.op, ast.USub) and isinstance(v.operand, ast.Constant)
+                    c = v.operand if neg else v
+                    if isinstance(c, ast.Constant) and type(c.value) is int:
+                        val = -c.value if neg else c.value
+                        new = {0: 1, 1: 0, -1: -2, -2: -1}.get(val, val - 1)
+                        st, e = self.src.span(v)
+                        self.add(v, "axis", st, e, str(new).encode())
         # range()/arange() arguments count as index arithmetic
         fname = f.attr if isinstance(f, ast.Attribute) else (f.id if isinstance(f, ast.Name) else "")
         if fname in ("range", "arange"):
@@ -445,6 +473,155 @@ def select(muts, cap, seed=0):
     return chosen
 
 
+
+# ---------------------------------------------------------------------------------------------- second sweep: non-env modules
+# name (= id prefix), file, {function pattern: checks}, pytest selection ("killed by tests").  A pattern is a qualified name
+# ("process_logits", "DecodingStrategy.step"), "Class.*" or "*".  A check is "Cxx" or "Cxx@<VERIF_ONLY value>".
+# These checks are not unit-scoped: the runner holds a per-property lock while a check runs (case files are named by property),
+# and mutants of TRANSLATED files (the translator regenerates coq/theories/Gen/*.v from the tree a check is pointed at) run their
+# checks with exclusive access to the Coq tree.
+PT = "tests/test_policy.py"
+TT = "tests/test_training.py"
+MODULES = [
+    dict(name="decoding", file="rl4co/utils/decoding.py", funcs={
+        "process_logits": ["C10"], "modify_logits_for_top_k_filtering": ["C10"], "modify_logits_for_top_p_filtering": ["C10"],
+        "get_log_likelihood": ["C11", "C13"],
+        "DecodingStrategy.pre_decoder_hook": ["C12", "C11"], "DecodingStrategy.post_decoder_hook": ["C11", "C12"],
+        "DecodingStrategy.step": ["C11", "C10", "C12"], "DecodingStrategy.greedy": ["C10", "C11"], "DecodingStrategy.sampling": ["C10", "C11"],
+        "DecodingStrategy._select_best": ["C12"], "Greedy._step": ["C11"], "Sampling._step": ["C11"], "Evaluate._step": ["C11"],
+        "BeamSearch.*": ["C13"]},
+        tests=[["tests/test_utils.py", "-k", "top_k"], [PT, "-k", "(am_policy or multistart or beam_search) and not dpp"]]),
+    dict(name="ops", file="rl4co/utils/ops.py", funcs={
+        "_batchify_single": ["C12"], "batchify": ["C12"], "_unbatchify_single": ["C12"], "unbatchify": ["C12"],
+        "gather_by_index": ["C12", "C03@tsp,cvrp"], "unbatchify_and_gather": ["C12", "C15"], "get_distance": ["C03@tsp,cvrp"],
+        "get_tour_length": ["C03@tsp,cvrp"], "calculate_entropy": ["C10", "C16"], "get_num_starts": ["C12"], "select_start_nodes": ["C12"],
+        "sample_n_random_actions": ["C12"]},
+        tests=[["tests/test_utils.py", "-k", "batchify"], [PT, "-k", "multistart"]]),
+    dict(name="baselines", file="rl4co/models/rl/reinforce/baselines.py", funcs={"*": ["C16", "C17", "C20"]}, tests=[[TT, "-k", "reinforce"]]),
+    dict(name="transforms", file="rl4co/data/transforms.py", funcs={"*": ["C15"]}, tests=[[TT, "-k", "symnco"], ["tests/test_tasks.py", "-k", "eval"]]),
+    dict(name="reinforce", file="rl4co/models/rl/reinforce/reinforce.py", funcs={"REINFORCE.calculate_loss": ["C16"], "REINFORCE.shared_step": ["C16"]},
+         tests=[[TT, "-k", "reinforce"]]),
+    dict(name="constructive_base", file="rl4co/models/common/constructive/base.py", funcs={"ConstructivePolicy.forward": ["C11", "C14"]},
+         tests=[[PT, "-k", "(am_policy or multistart) and not dpp"]]),
+    dict(name="dataset", file="rl4co/data/dataset.py", funcs={"*": ["C17"]}, tests=[[TT, "-k", "reinforce"]]),
+    dict(name="rl_utils", file="rl4co/models/rl/common/utils.py", funcs={"RewardScaler.*": ["C20"]}, tests=[[TT, "-k", "test_ppo"]]),
+    dict(name="losses", file="rl4co/models/zoo/symnco/losses.py", funcs={"*": ["C16"]}, tests=[[TT, "-k", "symnco"]]),
+    dict(name="ppo", file="rl4co/models/rl/ppo/ppo.py", funcs={"PPO.shared_step": ["C16"]}, tests=[[TT, "-k", "test_ppo"]]),
+    dict(name="symnco_model", file="rl4co/models/zoo/symnco/model.py", funcs={"SymNCO.shared_step": ["C16", "C15", "C12"]}, tests=[[TT, "-k", "symnco"]]),
+    dict(name="pomo_model", file="rl4co/models/zoo/pomo/model.py", funcs={"POMO.shared_step": ["C16", "C15", "C12"]}, tests=[[TT, "-k", "pomo"]]),
+    dict(name="eval", file="rl4co/tasks/eval.py", funcs={"*": ["C15"]}, tests=[["tests/test_tasks.py", "-k", "eval"]]),
+    dict(name="fjsp_parser", file="rl4co/envs/scheduling/fjsp/parser.py", funcs={"*": ["C19"]}, tests=[["tests/test_envs.py", "-k", "scheduling_dataloader"]]),
+    dict(name="env_base", file="rl4co/envs/common/base.py", funcs={"RL4COEnvBase.__getstate__": ["C19", "C17"], "RL4COEnvBase.__setstate__": ["C19", "C17"],
+                                                                 "RL4COEnvBase.dataset": ["C19", "C17"]}, tests=[[TT, "-k", "reinforce"]]),
+    dict(name="data_utils", file="rl4co/data/utils.py", funcs={"load_npz_to_tensordict": ["C19"], "save_tensordict_to_npz": ["C19"], "check_extension": ["C19"]},
+         tests=[["tests/test_tasks.py", "-k", "eval"]]),
+    dict(name="jssp_parser", file="rl4co/envs/scheduling/jssp/parser.py", funcs={"*": ["C19"]}, tests=[["tests/test_envs.py", "-k", "JSSPEnv"]]),
+    dict(name="a2c", file="rl4co/models/rl/a2c/a2c.py", funcs={"*": ["C16"]}, tests=[[TT, "-k", "test_a2c"]]),
+]
+MOD_BY_NAME = {m["name"]: m for m in MODULES}
+TRANSLATED = {"rl4co/data/transforms.py", "rl4co/models/rl/reinforce/baselines.py", "rl4co/models/zoo/symnco/losses.py",
+              "rl4co/models/rl/reinforce/reinforce.py", "rl4co/models/rl/common/utils.py"}
+MOD_SKIP_FUNCS = {"__init__", "__new__", "render", "list_files"}
+
+
+def enumerate_module_mutants(mod, repo=REPO):
+    rel = mod["file"]
+    text = (Path(repo) / rel).read_text()
+    src = Src(text)
+    tree = ast.parse(text)
+    base_dump = ast.dump(tree)
+    defs = []       # (qualname, FunctionDef)
+    for n in tree.body:
+        if isinstance(n, ast.FunctionDef):
+            defs.append((n.name, n))
+        elif isinstance(n, ast.ClassDef):
+            for m in n.body:
+                if isinstance(m, ast.FunctionDef):
+                    defs.append(("%s.%s" % (n.name, m.name), m))
+
+    def checks_of(q):
+        if q in mod["funcs"]:
+            return mod["funcs"][q]
+        if q.split(".")[-1] in MOD_SKIP_FUNCS:
+            return None
+        if "." in q and q.split(".")[0] + ".*" in mod["funcs"]:
+            return mod["funcs"][q.split(".")[0] + ".*"]
+        return mod["funcs"].get("*")
+    muts = []
+    for q, fdef in defs:
+        checks = checks_of(q)
+        if not checks:
+            continue
+        en = Enumerator(src, q, extra_ops=True)
+        for stmt in fdef.body:
+            en.parents = [fdef]
+            en.visit(stmt)
+        ca = ConstInArith(en)
+        for stmt in fdef.body:
+            ca.visit(stmt)
+        seen, per_line = set(), {}
+        for (line, col, op, st, e, rep) in sorted(en.edits):
+            if (st, e, rep) in seen:
+                continue
+            seen.add((st, e, rep))
+            newb = src.b[:st] + rep + src.b[e:]
+            try:
+                new = newb.decode("utf-8")
+                t2 = ast.parse(new)
+                compile(new, rel, "exec")
+            except (SyntaxError, ValueError, UnicodeDecodeError):
+                continue
+            if ast.dump(t2) == base_dump:
+                continue
+            k = per_line.setdefault((line, op), 0)
+            per_line[(line, op)] = k + 1
+            mid = "%s:%s:%d:%s%s" % (mod["name"], q, line, op, "" if k == 0 else ".%d" % (k + 1))
+            diff = "".join(difflib.unified_diff(text.splitlines(True), new.splitlines(True), "a/" + rel, "b/" + rel, n=2))
+            muts.append(dict(id=mid, env=mod["name"], function=q, line=line, col=col, operator=op, cats=[], checks=list(checks),
+                             file=rel, start=st, end=e, rep=rep.decode(), diff=diff, module=True))
+    return muts
+
+
+class RWLock:
+    def __init__(self):
+        self.c = threading.Condition()
+        self.readers = 0
+        self.writer = False
+        self.wwait = 0
+
+    def acquire(self, write):
+        with self.c:
+            if write:
+                self.wwait += 1
+                while self.writer or self.readers:
+                    self.c.wait()
+                self.wwait -= 1
+                self.writer = True
+            else:
+                while self.writer or self.wwait:
+                    self.c.wait()
+                self.readers += 1
+
+    def release(self, write):
+        with self.c:
+            if write:
+                self.writer = False
+            else:
+                self.readers -= 1
+            self.c.notify_all()
+
+
+COQ_RW = RWLock()
+PROP_LOCKS = {}
+PROP_LOCKS_GUARD = threading.Lock()
+BASE_CACHE = {}
+
+
+def prop_lock(p):
+    with PROP_LOCKS_GUARD:
+        return PROP_LOCKS.setdefault(p, threading.Lock())
+
+
 # ---------------------------------------------------------------------------------------------- running
 LOCK = threading.Lock()
 STATE = {"meta": {}, "mutants": {}}
@@ -539,12 +716,149 @@ class Worker:
                            cwd=str(self.tree), env=e, timeout=TEST_TIMEOUT)
         return rc, out, secs
 
+    def run_tests_args(self, selections, timeout=240):
+        """module sweep: several pytest selections, one after the other, stop at the first failure"""
+        e = dict(os.environ, PYTHONPATH=str(self.tree), OMP_NUM_THREADS="2", CUDA_VISIBLE_DEVICES="", PYTHONWARNINGS="ignore",
+                 PYTHONHASHSEED="0")
+        total, outs = 0.0, ""
+        for sel in selections:
+            rc, out, secs = sh([PY, "-W", "ignore", "-m", "pytest", "-x", "-q", "-p", "no:cacheprovider", "--no-header"] + list(sel),
+                               cwd=str(self.tree), env=e, timeout=timeout)
+            total += secs
+            outs += out
+            if rc != 0:
+                return rc, outs, total
+        return 0, outs, total
+
+    def run_check_locked(self, prop, only, exclusive):
+        """one property at a time (case files are named by property); translated-file mutants own the Coq tree"""
+        with prop_lock(prop):
+            COQ_RW.acquire(exclusive)
+            try:
+                return self.run_check(prop, only)
+            finally:
+                COQ_RW.release(exclusive)
+
+    def mod_baseline(self, mod, muts):
+        need = []
+        for m in muts:
+            for c in m["checks"]:
+                if c not in need:
+                    need.append(c)
+        rc, out, secs = self.run_tests_args(mod["tests"])
+        base = {"tests_rc": rc, "tests_s": round(secs, 1), "checks": {}}
+        if rc != 0:
+            base["tests_tail"] = out[-600:]
+        for c in need:
+            with PROP_LOCKS_GUARD:
+                cached = BASE_CACHE.get(c)
+            if cached is None:
+                p, _, only = c.partition("@")
+                r = self.run_check_locked(p, only or None, False)
+                cached = dict(violations=r["violations"], seconds=r["seconds"], rc=r["rc"], detail=r["detail"])
+                with PROP_LOCKS_GUARD:
+                    BASE_CACHE[c] = cached
+            base["checks"][c] = cached
+        with LOCK:
+            STATE["meta"].setdefault("sweep2", {}).setdefault("baseline", {})[mod["name"]] = base
+            save_state()
+        return base
+
+    def do_mod_mutant(self, mod, m, base):
+        t0 = time.time()
+        rel = m["file"]
+        path = self.tree / rel
+        orig = path.read_bytes()
+        assert orig == (REPO / rel).read_bytes(), "worktree file differs from /repo before the edit"
+        res = dict(id=m["id"], env=m["env"], function=m["function"], line=m["line"], operator=m["operator"], diff=m["diff"],
+                   checks=[], worker=self.k, module=True, file=rel)
+        # Exclusive access to the Coq tree for every translated-file mutant would serialise the whole sweep (and starve the other
+        # workers); instead such mutants run concurrently and their SURVIVORS are re-run alone at the end (confirm phase of run2).
+        exclusive = bool(getattr(self, "exclusive", False)) and rel in TRANSLATED
+        try:
+            path.write_bytes(orig[:m["start"]] + m["rep"].encode() + orig[m["end"]:])
+            self.drop_pyc(rel)
+            rc, out, secs = self.run_tests_args(mod["tests"])
+            res["tests_s"] = round(secs, 1)
+            if rc != 0:
+                imp = bool(re.search(r"ImportError|SyntaxError|errors? during collection|ERROR collecting", out))
+                res["status"] = "killed"
+                res["killed_by"] = "import" if imp else "tests"
+                fl = [ln for ln in out.splitlines() if re.match(r"^(E  |FAILED|ERROR)", ln)]
+                res["detail"] = " | ".join(fl[:3])[:400]
+                if rc in (124, -9):
+                    res["detail"] = "hang: the module's tests did not terminate within the time limit"
+            else:
+                res["relevant"] = list(m["checks"])
+                status = "survivor" if m["checks"] else "no_applicable_check"
+                for c in m["checks"]:
+                    if base["checks"].get(c, {}).get("violations"):
+                        res["checks"].append(dict(check=c, skipped="baseline prints VIOLATION on the unchanged tree"))
+                        continue
+                    p, _, only = c.partition("@")
+                    r = self.run_check_locked(p, only or None, exclusive)
+                    tries = 0
+                    # an edit of a file that is not translated cannot break a proof obligation: such a line is a race with a
+                    # concurrent regeneration of coq/theories/Gen from another worker's (mutated, translated) tree -> run again
+                    while (r["violations"] and rel not in TRANSLATED and tries < 2
+                           and re.search(r"proof obligation no longer checks|gate: forbidden", r["detail"] or "")):
+                        tries += 1
+                        res.setdefault("anomalies", []).append("%s: retried (%s)" % (c, (r["detail"] or "")[:120]))
+                        time.sleep(10)
+                        r = self.run_check_locked(p, only or None, exclusive)
+                    r["check"] = c
+                    res["checks"].append(r)
+                    if r["violations"]:
+                        status = "killed"
+                        res["killed_by"] = p
+                        res["kill_kind"] = r["kind"]
+                        if re.search(r"proof obligation no longer checks", r["detail"] or ""):
+                            res["kill_kind"] = "broken-proof-obligation" + ("" if r["kind"] != "concrete" else "+concrete")
+                        res["detail"] = r["detail"]
+                        break
+                    if r["rc"] in (124, -9):
+                        status = "check_timeout"
+                        res["timeout_in"] = p
+                        res["detail"] = "%s did not terminate within %d s (no verdict printed)" % (c, self.check_timeout)
+                        break
+                res["status"] = status
+        finally:
+            path.write_bytes(orig)
+            self.drop_pyc(rel)
+        rc, out, _ = sh(["git", "-C", str(self.tree), "status", "--porcelain", "--untracked-files=no"])
+        if out.strip():
+            sh(["git", "-C", str(self.tree), "checkout", "--", "."])
+        res["seconds"] = round(time.time() - t0, 1)
+        return res
+
+    def do_module(self, mod, muts):
+        todo = [m for m in muts if STATE["mutants"].get(m["id"], {}).get("status") is None]
+        if not todo or time.time() > self.deadline:
+            return
+        base = self.mod_baseline(mod, todo)
+        if base["tests_rc"] != 0:
+            print("[w%d] %s: the module's tests fail on the UNCHANGED tree: %s" % (self.k, mod["name"], base.get("tests_tail", "")[-300:]), flush=True)
+            return
+        for m in todo:
+            if time.time() > self.deadline:
+                print("[w%d] deadline reached in %s" % (self.k, mod["name"]), flush=True)
+                return
+            res = self.do_mod_mutant(mod, m, base)
+            with LOCK:
+                STATE["mutants"][m["id"]] = res
+                save_state()
+                try:
+                    write_report2()
+                except Exception as e:      # a report problem must never stop the sweep
+                    print("report2 failed: %r" % (e,), flush=True)
+            print("[w%d] %-62s %-13s %-8s %5.0fs" % (self.k, m["id"], res["status"], res.get("killed_by", ""), res["seconds"]), flush=True)
+
     def run_check(self, prop, only):
         e = dict(os.environ, RL4CO_REPO=str(self.tree), VERIF_EVIDENCE_DIR=str(self.ev), OMP_NUM_THREADS="2")
         e.pop("VERIF_ONLY", None)
         if only:
             e["VERIF_ONLY"] = only
-        rc, out, secs = sh([str(VERIF / "check"), prop, "--tier", "quick"], cwd=str(VERIF), env=e, timeout=CHECK_TIMEOUT)
+        rc, out, secs = sh([str(VERIF / "check"), prop, "--tier", "quick"], cwd=str(VERIF), env=e, timeout=getattr(self, "check_timeout", CHECK_TIMEOUT))
         vio = [ln for ln in out.splitlines() if "VIOLATION" in ln]
         # replay files written by this run (printed, or named in the evidence): remove them again (they describe mutants)
         paths = set(re.findall(r"(/verif/replays/[\w.\-+@]+\.json)", out))
@@ -569,6 +883,14 @@ class Worker:
                     except Exception:
                         pass
             detail = " || ".join(s for s in sigs if s)[:700]
+            if not detail and evtext:
+                try:
+                    bo = json.loads(evtext).get("coverage", {}).get("broken_obligations", [])
+                    detail = " || ".join(str(x)[:250] for x in bo[:2])
+                except Exception:
+                    pass
+            if not detail:
+                detail = " || ".join(ln.strip()[:200] for ln in vio[:2])
         for p in paths:
             if os.path.basename(p) not in self.replays_before:
                 try:
@@ -808,9 +1130,196 @@ def followup(args):
         w.teardown()
 
 
+def run2(args):
+    """second sweep: the non-env modules of MODULES"""
+    global STATE
+    names = [x for x in (args.modules.split(",") if args.modules else [m["name"] for m in MODULES]) if x]
+    if JSON_OUT.exists():
+        STATE = json.loads(JSON_OUT.read_text())
+    STATE.setdefault("meta", {})
+    STATE.setdefault("mutants", {})
+    rc, head, _ = sh(["git", "-C", str(REPO), "rev-parse", "HEAD"])
+    plan = {}
+    meta2 = STATE["meta"].setdefault("sweep2", {})
+    for n in names:
+        allm = enumerate_module_mutants(MOD_BY_NAME[n])
+        sel = select(allm, args.cap)
+        plan[n] = sel
+        meta2.setdefault("enumerated", {})[n] = dict(total=len(allm), selected=len(sel), selected_ids=[m["id"] for m in sel])
+    meta2.update(repo_head=head.strip(), cap=args.cap, started=meta2.get("started") or time.strftime("%Y-%m-%d %H:%M:%S"))
+    meta2.pop("finished", None)
+    save_state()
+    q = queue.Queue()
+    for n in names:
+        q.put(n)
+    deadline = time.time() + args.minutes * 60
+    replays_before = set(os.listdir(VERIF / "replays")) if (VERIF / "replays").exists() else set()
+    workers = [Worker(k, {}, deadline, replays_before) for k in range(min(args.workers, 4, len(names)))]
+    for w in workers:
+        w.check_timeout = 600
+
+    def loop(w):
+        try:
+            w.setup()
+            while time.time() < deadline:
+                try:
+                    n = q.get_nowait()
+                except queue.Empty:
+                    break
+                print("[w%d] === %s (%d mutants)" % (w.k, n, len(plan[n])), flush=True)
+                try:
+                    w.do_module(MOD_BY_NAME[n], plan[n])
+                except Exception as e:
+                    import traceback
+                    print("[w%d] module %s aborted: %s" % (w.k, n, traceback.format_exc()[-800:]), flush=True)
+        finally:
+            w.teardown()
+
+    ths = [threading.Thread(target=loop, args=(w,)) for w in workers]
+    for t in ths:
+        t.start()
+        time.sleep(2)
+    for t in ths:
+        t.join()
+    # confirm phase: survivors in translated files are re-run alone (nobody else regenerates coq/theories/Gen meanwhile)
+    redo = [m for n in names for m in plan[n] if m["file"] in TRANSLATED
+            and STATE["mutants"].get(m["id"], {}).get("status") == "survivor" and not STATE["mutants"][m["id"]].get("confirmed_alone")]
+    if redo:
+        w = Worker(8, {}, time.time() + 3600, replays_before)
+        w.check_timeout = 600
+        w.exclusive = True
+        w.setup()
+        try:
+            for m in redo:
+                base = STATE["meta"]["sweep2"].get("baseline", {}).get(m["env"], {"checks": {}})
+                res = w.do_mod_mutant(MOD_BY_NAME[m["env"]], m, base)
+                res["confirmed_alone"] = True
+                STATE["mutants"][m["id"]] = res
+                save_state()
+                print("[confirm] %-58s %-13s %-8s" % (m["id"], res["status"], res.get("killed_by", "")), flush=True)
+        finally:
+            w.teardown()
+    STATE["meta"]["sweep2"]["finished"] = time.strftime("%Y-%m-%d %H:%M:%S")
+    save_state()
+    write_report2()
+    print("done; see %s and %s" % (JSON_OUT, MD_OUT2))
+
+
+MD_OUT2 = AUDIT / "MUTATION_SWEEP_2.md"
+
+
+def write_report2():
+    ms = {k: v for k, v in STATE.get("mutants", {}).items() if v.get("module")}
+    meta = STATE.get("meta", {}).get("sweep2", {})
+    tri = {}
+    tp = AUDIT / "mutation_sweep_triage_2.json"
+    if tp.exists():
+        try:
+            tri = json.loads(tp.read_text())
+        except Exception:
+            tri = {}
+    notes = tri.pop("_notes", []) if isinstance(tri, dict) else []
+    tri = {k: v for k, v in tri.items() if isinstance(v, dict)}
+    L = ["# Mutation sweep 2: non-environment code (decoding, ops, policies, transforms, datasets, baselines, losses, parsers) against C10-C20\n"]
+    L.append("Generated by `tools/mutation_sweep.py run2` (development audit, not a registered check). /repo HEAD `%s`, cap %s mutants per source file, "
+             "seed 0, started %s%s.\n" % (meta.get("repo_head", "?")[:10], meta.get("cap"), meta.get("started"),
+                                          (", finished " + meta["finished"]) if meta.get("finished") else " (RUNNING / partial)"))
+    L.append("Per mutant: the module's tests (`-k` subsets of tests/test_*.py, \"killed by tests\"), then the checks listed for the function in the "
+             "tool's MODULES table, `RL4CO_REPO=<tree> ./check Cxx --tier quick`, stopping at the first VIOLATION. One worker runs a given property at a "
+             "time; mutants of translated files run their checks with exclusive access to the Coq tree.\n")
+    if notes:
+        L.append("## Notes on this run\n")
+        L += ["* " + n for n in notes] + [""]
+    props = ["import", "tests", "C03", "C10", "C11", "C12", "C13", "C14", "C15", "C16", "C17", "C19", "C20"]
+    L.append("## Kill matrix\n")
+    L.append("| module (file) | enumerated | selected | run | " + " | ".join(props) + " | survivors | check timeout | concrete / broken proof / no-input |")
+    L.append("|---|---|---|---|" + "---|" * len(props) + "---|---|---|")
+    tot = {}
+    for mod in MODULES:
+        n = mod["name"]
+        en = meta.get("enumerated", {}).get(n)
+        rows = [m for m in ms.values() if m["env"] == n]
+        if not en and not rows:
+            continue
+        cnt = {p: sum(1 for m in rows if m.get("killed_by") == p) for p in props}
+        surv = sum(1 for m in rows if m["status"] == "survivor")
+        tmo = sum(1 for m in rows if m["status"] == "check_timeout")
+        conc = sum(1 for m in rows if m.get("kill_kind") == "concrete")
+        brk = sum(1 for m in rows if str(m.get("kill_kind", "")).startswith("broken-proof"))
+        noinp = sum(1 for m in rows if str(m.get("kill_kind", "")).startswith("no-failing-input-found"))
+        L.append("| %s (`%s`) | %s | %s | %d | %s | %d | %d | %d / %d / %d |" % (
+            n, mod["file"].replace("rl4co/", ""), en["total"] if en else "?", en["selected"] if en else "?", len(rows),
+            " | ".join(str(cnt[p] or "") for p in props), surv, tmo, conc, brk, noinp))
+        for k, v in list(cnt.items()) + [("run", len(rows)), ("surv", surv), ("tmo", tmo), ("conc", conc), ("brk", brk), ("noinp", noinp),
+                                         ("enum", en["total"] if en else 0), ("sel", en["selected"] if en else 0)]:
+            tot[k] = tot.get(k, 0) + v
+    if tot:
+        L.append("| **all** | %d | %d | %d | %s | %d | %d | %d / %d / %d |\n" % (
+            tot["enum"], tot["sel"], tot["run"], " | ".join(str(tot.get(p) or "") for p in props), tot["surv"], tot["tmo"], tot["conc"], tot["brk"], tot["noinp"]))
+    ops = sorted({m["operator"] for m in ms.values()}, key=lambda o: OP_PRIORITY.index(o) if o in OP_PRIORITY else 99)
+    L.append("## By operator\n")
+    L.append("| operator | run | killed by tests/import | killed by checks | survivors |")
+    L.append("|---|---|---|---|---|")
+    for o in ops:
+        rows = [m for m in ms.values() if m["operator"] == o]
+        L.append("| %s | %d | %d | %d | %d |" % (o, len(rows), sum(1 for m in rows if m.get("killed_by") in ("tests", "import")),
+                                             sum(1 for m in rows if str(m.get("killed_by", "")).startswith("C")),
+                                             sum(1 for m in rows if m["status"] == "survivor")))
+    L.append("")
+    if tri:
+        L.append("## Triage of the survivors (by reading the code; distinguishing inputs confirmed on both trees)\n")
+        for verdict, title in (("gap", "REAL GAPS"), ("equivalent", "EQUIVALENT mutants"), ("outside", "Outside the swept properties"), ("open", "Not yet triaged")):
+            rows = [(k, v) for k, v in sorted(tri.items()) if v.get("verdict") == verdict]
+            if not rows:
+                continue
+            L.append("### %s (%d)\n" % (title, len(rows)))
+            for k, v in rows:
+                L.append("* `%s` -- %s" % (k, v.get("reason", "")))
+                if v.get("input"):
+                    L.append("  * distinguishing input: %s" % v["input"])
+                if v.get("stream"):
+                    L.append("  * belongs in: %s" % v["stream"])
+            L.append("")
+    L.append("## Per module\n")
+    for mod in MODULES:
+        n = mod["name"]
+        rows = sorted((m for m in ms.values() if m["env"] == n), key=lambda m: (m["line"], m["id"]))
+        en = meta.get("enumerated", {}).get(n)
+        if not rows and not en:
+            continue
+        L.append("### %s (`%s`)\n" % (n, mod["file"]))
+        if en:
+            pend = [i for i in en.get("selected_ids", []) if i not in ms]
+            L.append("enumerated %d single-site mutants, selected %d, run %d%s. Tests: %s\n" % (
+                en["total"], en["selected"], len(rows), (", NOT RUN (budget): %d" % len(pend)) if pend else "",
+                "; ".join("`pytest %s`" % " ".join(t) for t in mod["tests"])))
+        b = meta.get("baseline", {}).get(n)
+        if b:
+            L.append("baseline on the unchanged worktree: tests rc=%s (%ss); checks %s\n" % (
+                b["tests_rc"], b["tests_s"], ", ".join("%s %s %.0fs" % (k, "VIOLATION(!)" if v["violations"] else "ok", v["seconds"]) for k, v in b["checks"].items())))
+        if rows:
+            L.append("| mutant | outcome | by | kind | checks run | s | detail |")
+            L.append("|---|---|---|---|---|---|---|")
+            for m in rows:
+                L.append("| `%s` | %s | %s | %s | %s | %.0f | %s |" % (
+                    m["id"], m["status"].upper() if m["status"] == "survivor" else m["status"], m.get("killed_by", ""), m.get("kill_kind", "") or "",
+                    " ".join(c["check"] for c in m.get("checks", []) if "skipped" not in c), m["seconds"],
+                    (m.get("detail", "") or "").replace("|", "\\|").replace("\n", " ")[:160]))
+            L.append("")
+            surv = [m for m in rows if m["status"] in ("survivor", "no_applicable_check", "check_timeout")]
+            if surv:
+                L.append("Survivors, with their diffs:\n")
+                for m in surv:
+                    t = tri.get(m["id"], {})
+                    L.append("* `%s` (%s)%s" % (m["id"], m["status"], (" -- **%s**: %s" % (t.get("verdict", "").upper(), t.get("reason", ""))) if t else ""))
+                    L.append("```diff\n" + m["diff"].rstrip("\n") + "\n```")
+                L.append("")
+    MD_OUT2.write_text("\n".join(L) + "\n")
+
+
 # ---------------------------------------------------------------------------------------------- report
 def write_report():
-    ms = STATE.get("mutants", {})
+    ms = {k: v for k, v in STATE.get("mutants", {}).items() if not v.get("module")}
     meta = STATE.get("meta", {})
     tri = {}
     tp = AUDIT / "mutation_sweep_triage.json"
@@ -931,6 +1440,10 @@ def main():
     a = sub.add_parser("run"); a.add_argument("--envs", default=""); a.add_argument("--cap", type=int, default=25)
     a.add_argument("--workers", type=int, default=4); a.add_argument("--minutes", type=float, default=150); a.add_argument("--fresh", action="store_true")
     sub.add_parser("report")
+    a = sub.add_parser("list2"); a.add_argument("--modules", default=""); a.add_argument("--cap", type=int, default=20); a.add_argument("--all", action="store_true")
+    a = sub.add_parser("run2"); a.add_argument("--modules", default=""); a.add_argument("--cap", type=int, default=20)
+    a.add_argument("--workers", type=int, default=4); a.add_argument("--minutes", type=float, default=150)
+    sub.add_parser("report2")
     a = sub.add_parser("followup"); a.add_argument("--minutes", type=float, default=20); a.add_argument("--envs", default="")
     a.add_argument("--side", default=""); a.add_argument("--merge", default="")
     a = sub.add_parser("show"); a.add_argument("id")
@@ -950,6 +1463,23 @@ def main():
                 print("  %-60s %s" % (m["id"], " => ".join(x[1:].strip() for x in chg)[:150]))
     elif args.cmd == "run":
         run(args)
+    elif args.cmd == "list2":
+        for n in (args.modules.split(",") if args.modules else [m["name"] for m in MODULES]):
+            allm = enumerate_module_mutants(MOD_BY_NAME[n])
+            sel = allm if args.all else select(allm, args.cap)
+            byf = {}
+            for m in allm:
+                byf[m["function"]] = byf.get(m["function"], 0) + 1
+            print("== %s: %d enumerated (%s), %d listed" % (n, len(allm), ", ".join("%s %d" % kv for kv in byf.items()), len(sel)))
+            for m in sel:
+                chg = [ln for ln in m["diff"].splitlines() if ln[:1] in "+-" and ln[:3] not in ("+++", "---")]
+                print("  %-66s %-18s %s" % (m["id"], ",".join(m["checks"]), " => ".join(x[1:].strip() for x in chg)[:120]))
+    elif args.cmd == "run2":
+        run2(args)
+    elif args.cmd == "report2":
+        STATE = json.loads(JSON_OUT.read_text())
+        write_report2()
+        print(MD_OUT2)
     elif args.cmd == "followup":
         followup(args)
     elif args.cmd == "report":
@@ -957,8 +1487,11 @@ def main():
         write_report()
         print(MD_OUT)
     elif args.cmd in ("show", "apply"):
-        env = ENV_BY_NAME[args.id.split(":")[0]]
-        ms = [m for m in enumerate_mutants(env) if m["id"] == args.id]
+        pre = args.id.split(":")[0]
+        if pre in MOD_BY_NAME:
+            ms = [m for m in enumerate_module_mutants(MOD_BY_NAME[pre]) if m["id"] == args.id]
+        else:
+            ms = [m for m in enumerate_mutants(ENV_BY_NAME[pre]) if m["id"] == args.id]
         if not ms:
             sys.exit("no such mutant: " + args.id)
         m = ms[0]
